@@ -20,7 +20,8 @@ Inductive oev :=
 | ObProc (s : TaskState) (outs : vars)
 | ObAct (ok : bool)
 | ObPop (tid : nat)
-| ObQuiet.
+| ObQuiet
+| ObFire (tid on : nat) (now start limit : Z).
 
 (* ---- what the model exposes ---- *)
 Definition pack_of (n : node) : upack :=
@@ -39,6 +40,7 @@ Definition observe_ev (e : eng) (nstatic : nat) (x : ev) : oev :=
   | EAct b => ObAct b
   | EPop t => ObPop t
   | EQuiet => ObQuiet
+  | EFire t on now start limit => ObFire t on now start limit
   end.
 Definition observe (e : eng) (nstatic : nat) : list oev := map (observe_ev e nstatic) (trace e).
 
@@ -64,18 +66,18 @@ Definition dotask := {| o_nid := None; o_kind := KAct; o_lvl := 0; o_prev := Non
                         o_created := 0; o_term := 0; o_revived := 0; o_started := false; o_msgs := 0 |}.
 Definition viol := (nat * nat)%type.             (* (clause, task) *)
 Record ost := { ots : list otask; started : nat; ended : nat; end_state : TaskState; viols : list viol;
-                since_quiet : nat; qstates : list TaskState; qended : nat; pending_ops : list (nat * nat) }.
+                since_quiet : nat; qstates : list TaskState; qended : nat; pending_ops : list (nat * nat); fired : list (nat * nat) }.
 
 Definition otk (s : ost) i := nth i (ots s) dotask.
 Definition oupd (s : ost) i (f : otask -> otask) : ost :=
   {| ots := upd (ots s) i (f (otk s i)); started := started s; ended := ended s; end_state := end_state s; viols := viols s;
-     since_quiet := since_quiet s; qstates := qstates s; qended := qended s; pending_ops := pending_ops s |}.
+     since_quiet := since_quiet s; qstates := qstates s; qended := qended s; pending_ops := pending_ops s; fired := fired s |}.
 Definition oviol (s : ost) (c t : nat) : ost :=
   {| ots := ots s; started := started s; ended := ended s; end_state := end_state s; viols := viols s ++ [(c, t)];
-     since_quiet := since_quiet s; qstates := qstates s; qended := qended s; pending_ops := pending_ops s |}.
+     since_quiet := since_quiet s; qstates := qstates s; qended := qended s; pending_ops := pending_ops s; fired := fired s |}.
 Definition obump (s : ost) : ost :=
   {| ots := ots s; started := started s; ended := ended s; end_state := end_state s; viols := viols s;
-     since_quiet := S (since_quiet s); qstates := qstates s; qended := qended s; pending_ops := pending_ops s |}.
+     since_quiet := S (since_quiet s); qstates := qstates s; qended := qended s; pending_ops := pending_ops s; fired := fired s |}.
 
 Fixpoint oparent_from (f : nat) (s : ost) (lvl : nat) (p : option nat) : option nat :=
   match f, p with
@@ -113,7 +115,7 @@ Definition step_oracle (hooks : list nat) (tmo_nids : list nat) (s : ost) (x : o
                             o_created := 0; o_term := 0; o_revived := 0; o_started := false; o_msgs := 0 |}];
          started := started s; ended := ended s; end_state := end_state s;
          viols := if Nat.eqb t (length (ots s)) then viols s else viols s ++ [(901, t)];
-         since_quiet := since_quiet s; qstates := qstates s; qended := qended s; pending_ops := pending_ops s |}
+         since_quiet := since_quiet s; qstates := qstates s; qended := qended s; pending_ops := pending_ops s; fired := fired s |}
   | ObTrans t o n _ =>
       let s := obump s in
       let cur := o_state (otk s t) in
@@ -158,11 +160,11 @@ Definition step_oracle (hooks : list nat) (tmo_nids : list nat) (s : ost) (x : o
                  else match find (fun d => oopen s d && negb (existsb (Nat.eqb d) hooks)) (all_tids s) with
                       | Some d => oviol s 305 d | None => s end in
         {| ots := ots s; started := started s; ended := S (ended s); end_state := st; viols := viols s;
-           since_quiet := since_quiet s; qstates := qstates s; qended := qended s; pending_ops := pending_ops s |}
+           since_quiet := since_quiet s; qstates := qstates s; qended := qended s; pending_ops := pending_ops s; fired := fired s |}
       else
         let s := if Nat.eqb (started s) 0 then s else oviol s 302 0 in
         {| ots := ots s; started := S (started s); ended := ended s; end_state := end_state s; viols := viols s;
-           since_quiet := since_quiet s; qstates := qstates s; qended := qended s; pending_ops := pending_ops s |}
+           since_quiet := since_quiet s; qstates := qstates s; qended := qended s; pending_ops := pending_ops s; fired := fired s |}
   | ObAct ok =>
       match pending_ops s with
       | [] => oviol s 903 0
@@ -172,7 +174,7 @@ Definition step_oracle (hooks : list nat) (tmo_nids : list nat) (s : ost) (x : o
           let exists_ := Nat.ltb t (length (qstates s)) in
           let qst := nth t (qstates s) SNone in
           let s1 := {| ots := ots s; started := started s; ended := ended s; end_state := end_state s; viols := viols s;
-                       since_quiet := 0; qstates := qstates s; qended := qended s; pending_ops := rest |} in
+                       since_quiet := 0; qstates := qstates s; qended := qended s; pending_ops := rest; fired := fired s |} in
           if ok then
             let s1 := if exists_ then s1 else oviol s1 503 t in
             let s1 := if exists_ && (if Nat.eqb a 8 then negb (nkind_beq (o_kind (otk s t)) KStep) else negb (nkind_beq (o_kind (otk s t)) KAct))
@@ -183,6 +185,14 @@ Definition step_oracle (hooks : list nat) (tmo_nids : list nat) (s : ost) (x : o
             if negb (Nat.eqb a 7) && negb (Nat.eqb (since_quiet s) 0) then oviol s1 501 t else s1
       end
   | ObPop _ => s
+  | ObFire t on now start limit =>
+      (* C19: never early, at most once per task and rule, only for a task that is still open *)
+      let s := obump s in
+      let s := if Z.leb limit (now - start) then s else oviol s 1901 t in
+      let s := if existsb (fun p => Nat.eqb (fst p) t && Nat.eqb (snd p) on) (fired s) then oviol s 1902 t else s in
+      let s := if oopen s t then s else oviol s 1903 t in
+      {| ots := ots s; started := started s; ended := ended s; end_state := end_state s; viols := viols s;
+         since_quiet := since_quiet s; qstates := qstates s; qended := qended s; pending_ops := pending_ops s; fired := (t, on) :: fired s |}
   | ObQuiet =>
       (* C01: nothing in flight: the process has ended, or a client can still answer something *)
       let waiting := existsb (fun d => is (o_state (otk s d)) SInterrupt
@@ -190,7 +200,7 @@ Definition step_oracle (hooks : list nat) (tmo_nids : list nat) (s : ost) (x : o
                              (all_tids s) in
       let s := if Nat.eqb (ended s) 0 && negb waiting then oviol s 101 0 else s in
       {| ots := ots s; started := started s; ended := ended s; end_state := end_state s; viols := viols s;
-         since_quiet := 0; qstates := map o_state (ots s); qended := ended s; pending_ops := pending_ops s |}
+         since_quiet := 0; qstates := map o_state (ots s); qended := ended s; pending_ops := pending_ops s; fired := fired s |}
   end.
 
 (* end of trace: every reporting task that ended has its terminal message; a message act that ran
@@ -203,7 +213,7 @@ Definition final_oracle (s : ost) : ost :=
     (all_tids s) s.
 
 Definition ost0 (ops : list (nat * nat)) : ost :=
-  {| ots := []; started := 0; ended := 0; end_state := SNone; viols := []; since_quiet := 0; qstates := []; qended := 0; pending_ops := ops |}.
+  {| ots := []; started := 0; ended := 0; end_state := SNone; viols := []; since_quiet := 0; qstates := []; qended := 0; pending_ops := ops; fired := [] |}.
 Definition check (hooks tmo_nids : list nat) (ops : list (nat * nat)) (tr : list oev) : list viol :=
   viols (final_oracle (fold_left (step_oracle hooks tmo_nids) tr (ost0 ops))).
 
@@ -213,6 +223,7 @@ Definition ok_C02 v := owned 200 300 v.
 Definition ok_C03 v := owned 300 400 v.
 Definition ok_C05 v := owned 500 600 v.
 Definition ok_C08 v := owned 800 900 v.
+Definition ok_C19 v := owned 1900 2000 v.
 
 (* inputs of `check` as the model knows them *)
 Definition action_code (a : action) : nat :=
